@@ -338,6 +338,12 @@ def ite(c, a, b):
         return ite(c, a.a[1], b)
     if b.op == "ite" and b.a[0] is c:
         return ite(c, a, b.a[2])
+    # finite maps over the same key type that differ only by the trailing "absent slots hold this default" marker
+    # (HashMap::new() of a numeric value type has it, a collected map has not): merge entry by entry, drop the marker
+    if a.op == "emap" and b.op == "emap" and a.a[0] == b.a[0] and len(a.a) != len(b.a) and abs(len(a.a) - len(b.a)) == 1:
+        n = (min(len(a.a), len(b.a)) - 1) // 2
+        args = [a.a[0]] + [ite(c, x, y) for x, y in zip(a.a[1:1 + 2 * n], b.a[1:1 + 2 * n])]
+        return mk("emap", *args)
     # same constructor on both arms: push inside (keeps records explicit)
     if a.op == b.op and a.op in ("adt", "tuple", "emap", "eset") and len(a.a) == len(b.a):
         if a.op == "adt" and (a.a[0] != b.a[0] or a.a[1] != b.a[1]):
